@@ -11,7 +11,8 @@ RULE = (
     "chains, joins, deduplicated / sliced / projected / calculated relations, the doomed and join-identity leaves) up "
     "to the depth bound; phase classification: a construction-time ColumnError / EngineError / documented "
     "row-order-loss error means 'not accepted' (not judged here); every accepted tree must go through to_executable + "
-    "compile + SQLite execution in both scan orders (or execute + full iteration) without any exception; "
+    "compile + SQLite execution in both scan orders (or execute + full iteration) without any exception, and again "
+    "with to_executable(extra_columns=<one-shot iterator of one literal column>), whose rows must all carry that column; "
     "non-trivial = accepted program of depth >= 2; distinct = distinct tree digests"
 )
 
@@ -52,6 +53,8 @@ class C08(Check):
             if obs.failed:
                 phase, e = obs.failure()
                 tr.violation(f"{phase}-raised", f"{type(e).__name__}: {str(e)[:200]}", phase=phase, exc=type(e).__name__)
+            else:
+                self.extra_columns_probe(tr, rel, len(obs.rows[0]))
         else:
             try:
                 for _ in rel.engine.execute(rel):
@@ -62,6 +65,28 @@ class C08(Check):
             tr.count("not_expanded_no_reference_value")
             return False
         return True
+
+
+def _extra_columns_probe(self, tr, rel, nrows):
+    """The public to_executable(extra_columns=...) argument is documented as any Iterable: hand it a
+    one-shot iterator (the strictest Iterable) and require the query to compile, run and carry the column."""
+    import sqlalchemy
+
+    from ..realize import db, run_sql, sqlite_fix
+
+    try:
+        q = rel.engine.to_executable(rel, extra_columns=iter([sqlalchemy.sql.literal(7).label("extra7")]))
+        comp = q.compile(dialect=db().dialect, compile_kwargs={"render_postcompile": True})
+        rows = run_sql(sqlite_fix(str(comp)), [comp.params[k] for k in (comp.positiontup or ())])
+    except Exception as e:  # noqa: BLE001
+        tr.violation("extra-columns-raised", f"to_executable(extra_columns=<iterator>): {type(e).__name__}: {str(e)[:200]}", exc=type(e).__name__)
+        return
+    tr.count("extra_columns_probes")
+    if len(rows) != nrows or any(r.get("extra7") != 7 for r in rows):
+        tr.violation("extra-columns-lost", f"to_executable(extra_columns=<iterator>) returned {len(rows)} rows (plain query {nrows}), first {rows[:2]}")
+
+
+C08.extra_columns_probe = _extra_columns_probe
 
 
 def run(tier, seed):
